@@ -78,6 +78,15 @@ Fixpoint decl_loop (fxp : bool) (a : dacc) (i : nat) (l : list token) : dacc :=
   | t :: r => decl_loop fxp (decl_step fxp a i t) (S i) r
   end.
 
+(* [FIX 6] (repaired code, parser.go:138-156) the {} rule is evaluated on the final value
+   (after "!important" was cut off): a {} block and more than one significant token.
+   As found (fxp = false): incremental flags that miss a token FOLLOWING the block
+   ("a: {} x") and do not count a "!" / "important" met in the bang state ("a: ! {}"). *)
+Definition significant_count (value : list token) : nat :=
+  length (filter (fun t => negb (is_ws_or_comment t)) value).
+Definition block_rule (value : list token) : bool :=
+  existsb is_curly value && (1 <? significant_count value)%nat.
+
 Definition parse_declaration (fxp : bool) (first : token) (tokens : list token) (nested : bool) : compound :=
   match first with
   | TIdent npos name =>
@@ -89,7 +98,8 @@ Definition parse_declaration (fxp : bool) (first : token) (tokens : list token) 
             let a := decl_loop fxp (mkD SValue 0 false false) 0 rest in
             let imp := match d_state a with SImportant => true | _ => false end in
             let value := if imp then firstn (d_bang a) rest else rest in               (* :145 *)
-            if d_csb a && d_cnw a then CParseError (token_pos colon) errInvalid        (* :150 *)
+            if (if fxp then block_rule value else d_csb a && d_cnw a)
+            then CParseError (token_pos colon) errInvalid                              (* :155 *)
             else CDeclaration npos name value imp
       end
   | _ => CParseError (token_pos first) errInvalid                                       (* :80 *)
